@@ -25,6 +25,7 @@ def run(ctx):
     R1 = ctx.rule('C07.R1', 'delete_node unlinks from lru, timeout, every trigger list and primary on every path; primary.erase only there')
     R2 = ctx.rule('C07.R2', 'store: insert only after find/delete_node of the same key; the new entry is linked into lru, timeout and triggers')
     R3 = ctx.rule('C07.R3', 'store: the key itself always becomes a trigger of the entry; all supplied triggers are added')
+    R9 = ctx.rule('C07.R9', 'what is stored is what is handed back: store puts the supplied value into the new entry; fetch copies out that entry\'s value, triggers, deadline and generation; add_trigger registers the entry in the trigger\'s list and the list position in the entry; rise and remove delete every entry they select; whole-container loops run begin..end')
     R4 = ctx.rule('C07.R4', 'fetch returns data only after find!=end and the not-expired comparison against time()')
     R5 = ctx.rule('C07.R5', 'rise deletes from a private copy of the trigger list (no deletion while iterating shared containers)')
     R6 = ctx.rule('C07.R6', 'cache_interface propagates triggers: fetched triggers re-added, key and triggers recorded on store, recorders notified')
@@ -161,6 +162,175 @@ def run(ctx):
         back = [i for i in f.calls() if q.short_of(f.callee(i)) == 'push_back' and any(model.strip_targs(r).endswith('container::triggers') for r in f.subtree_refs(i))]
         ctx.check(bool(ti) and bool(pf) and bool(back) and q.always_before_exit(f, ti) and q.always_before_exit(f, pf) and q.always_before_exit(f, back), R3,
                   'add_trigger[%s]:links-both-directions' % t, 'trigger -> entry and entry -> trigger links are not both made', f.where)
+
+    # ---------------- R9 values and trigger registration
+    def whole_loop(f, L, cont_match):
+        """L iterates a container from begin() to end() with a != / < condition and no early leave"""
+        n_ = f.N(L)
+        if n_['k'] == 'CXXForRangeStmt':
+            return not [j for j in f.walk(n_['body']) if f.N(j)['k'] in ('BreakStmt', 'ReturnStmt', 'GotoStmt')]
+        if n_.get('cond', -1) in (None, -1):
+            return False
+        cn_ = f.N(f.strip(n_['cond']))
+        op_ok = (cn_['k'] in ('CXXOperatorCallExpr', 'BinaryOperator') and cn_.get('op') in ('!=', '<')) or \
+                (cn_['k'] == 'UnaryOperator' and cn_.get('op') == '!' and f.N(f.strip(cn_['ch'][0])).get('op') == '==')
+        ends = [j for j in f.calls(n_['cond']) if q.short_of(f.bcallee(j) or '') == 'end' and cont_match(f, j)]
+        iv = [r for r in f.subtree_refs(n_['cond']) if r.startswith('v:')]
+        begins = [v_ for r in iv for (d_, v_) in f.defs_of_var(r) if v_ is not None and any(q.short_of(f.bcallee(j) or '') == 'begin' and cont_match(f, j) for j in f.calls(v_))]
+        esc = [j for j in f.walk(n_['body']) if f.N(j)['k'] in ('BreakStmt', 'ReturnStmt', 'GotoStmt', 'ContinueStmt')]
+        return op_ok and bool(ends) and bool(begins) and not esc
+
+    def on_field(fld):
+        return lambda f, j: f.obj(j) is not None and any(model.strip_targs(r).endswith(fld) for r in f.subtree_refs(f.obj(j)))
+
+    def on_var(v):
+        return lambda f, j: f.obj(j) is not None and f.ref_of(f.obj(j)) == v
+    for f in insts(P, 'store'):
+        t = tag(f)
+        valp, trig_in, tin = q.param_by_index(f, 1), q.param_by_index(f, 2), q.param_by_index(f, 3)
+        ins = q.field_calls(f, 'mem_cache::primary', 'insert')
+        # the value parameter reaches container::data: a local that received to_int(a) (directly, or by swap with such a local) is swapped / assigned into data
+        holders = set()
+        for _ in range(3):
+            for i in f.all_nodes():
+                if f.N(i)['k'] == 'DeclStmt':
+                    for d in f.N(i)['decls']:
+                        if d.get('init') is not None and (valp in f.subtree_refs(d['init']) or holders & f.subtree_refs(d['init'])):
+                            holders.add(d['ref'])
+            for i in f.calls():
+                if q.short_of(f.bcallee(i) or '') in ('swap', 'operator=', 'assign') and f.N(i)['k'] in ('CXXMemberCallExpr', 'CXXOperatorCallExpr'):
+                    vs = set(r for r in f.subtree_refs(i) if r.startswith('v:'))
+                    if vs & holders or valp in f.subtree_refs(i):
+                        holders |= vs
+        dsw = [i for i in f.calls() if q.short_of(f.bcallee(i) or '') in ('swap', 'operator=', 'assign') and any(model.strip_targs(r).endswith('container::data') for r in f.subtree_refs(i)) and
+               ((set(r for r in f.subtree_refs(i) if r.startswith('v:')) & holders) or valp in f.subtree_refs(i))]
+        ctx.check(len(dsw) == 1 and bool(ins) and q.always_after(f, ins[0], dsw), R9, 'store[%s]:value-put-into-the-new-entry' % t, 'the new entry does not receive the supplied value on every path after the insert', f.loc(ins[0]) if ins else f.where)
+        # the iterator that is linked everywhere is the one primary.insert returned
+        if ins:
+            resv = [d['ref'] for i in f.all_nodes() if f.N(i)['k'] == 'DeclStmt' for d in f.N(i)['decls'] if d.get('init') is not None and ins[0] in set(f.walk(d['init']))]
+            uses = []
+            for i in f.calls():
+                if q.reaches(f, ins[0], i) and (q.short_of(f.callee(i)) == 'add_trigger' or (q.field_calls(f, 'mem_cache::lru') and i in q.field_calls(f, 'mem_cache::lru', ('push_front', 'push_back'))) or i in q.field_calls(f, 'mem_cache::timeout', 'insert')):
+                    uses += [(i, r) for r in f.subtree_refs(i) if r.startswith('v:') and (lambda ty: 'iterator' in ty and 'hash_map' in ty.split('iterator')[0] and not ty.startswith('std::'))(dict((d['ref'], f.types[d['t']] or '') for j in f.all_nodes() if f.N(j)['k'] == 'DeclStmt' for d in f.N(j)['decls']).get(r, '')) and r not in resv]
+            oku = bool(uses) and bool(resv)
+            def real_defs(r, at, depth=0):
+                out = set()
+                for d_ in f.reaching_defs(r, at):
+                    if d_ != '<entry>' and f.N(d_)['k'] in ('CXXTemporaryObjectExpr', 'CXXConstructExpr') and 'std::pair' in (f.callee(d_) or '') and depth < 4:
+                        out |= real_defs(r, d_, depth + 1)        # perfect-forwarding constructor: takes T& but does not modify
+                    else:
+                        out.add(d_)
+                return out
+            for (i, r) in uses:
+                rds = real_defs(r, i)
+                oku = oku and bool(rds) and all(d_ != '<entry>' and any(x in resv for x in f.subtree_refs(d_)) and any(model.strip_targs(y).endswith('pair::first') for y in f.subtree_refs(d_)) for d_ in rds)
+            ctx.check(oku, R9, 'store[%s]:linked-entry-is-the-inserted-one' % t, 'lru / timeout / triggers are given an iterator that is not the result of primary.insert (the entry just deleted, or end())', f.loc(ins[0]))
+        lps = [L for L in q.loops(f) if trig_in in f.subtree_refs(f.N(L).get('cond', L) if f.N(L).get('cond', -1) not in (None, -1) else L)]
+        ctx.check(len(lps) == 1 and whole_loop(f, lps[0], on_var(trig_in)) and any(q.short_of(f.callee(i)) == 'add_trigger' for i in f.calls(f.N(lps[0])['body'])), R9,
+                  'store[%s]:every-supplied-trigger-registered' % t, 'the loop over the supplied triggers does not run from begin() to end()', f.loc(lps[0]) if lps else f.where)
+    for f in insts(P, 'add_trigger'):
+        t = tag(f)
+        pp_, kp_ = q.param_by_index(f, 0), q.param_by_index(f, 1)
+        ins = q.field_calls(f, 'mem_cache::triggers', ('insert', 'emplace'))
+        oka = len(ins) == 1 and kp_ in q.deep_refs(f, ins[0])
+        itv = set()
+        if oka:
+            # iterators derived from the insert result (.first of the returned pair)
+            res = [d['ref'] for i in f.all_nodes() if f.N(i)['k'] == 'DeclStmt' for d in f.N(i)['decls'] if d.get('init') is not None and ins[0] in set(f.walk(d['init']))]
+            itv = set(res)
+            for i in f.all_nodes():
+                if f.N(i)['k'] == 'DeclStmt':
+                    for d in f.N(i)['decls']:
+                        if d.get('init') is not None and set(res) & f.subtree_refs(d['init']) and any(model.strip_targs(r).endswith('pair::first') for r in f.subtree_refs(d['init'])):
+                            itv.add(d['ref'])
+        reg = [i for i in f.calls() if q.short_of(f.bcallee(i) or '') in ('push_front', 'push_back') and f.args(i) and f.ref_of(f.args(i)[0]) == pp_ and (itv & f.subtree_refs(i))]
+        back = [i for i in f.calls() if q.short_of(f.bcallee(i) or '') in ('push_front', 'push_back') and any(model.strip_targs(r).endswith('container::triggers') for r in f.subtree_refs(f.obj(i)) if f.obj(i) is not None) and
+                pp_ in f.subtree_refs(f.obj(i)) and (itv & f.subtree_refs(i))]
+        oka = oka and len(reg) == 1 and len(back) == 1 and q.always_before_exit(f, reg) and q.always_before_exit(f, back) and q.before(f, reg[0], back[0])
+        if oka:
+            # the recorded position is that of the element just pushed: begin() after push_front, --end() / last after push_back
+            where_ = [q.short_of(f.bcallee(j) or '') for j in f.calls(back[0]) if j != back[0]]
+            front = q.short_of(f.bcallee(reg[0]) or '') == 'push_front'
+            oka = ('begin' in where_) if front else ('end' in where_ or 'rbegin' in where_)
+        ctx.check(oka, R9, 'add_trigger[%s]:entry-in-trigger-list-and-position-in-entry' % t, 'the entry is not put into the list of the trigger named by the key, or the position recorded in the entry is not that of the new list element', f.where)
+    for f in insts(P, 'fetch'):
+        t = tag(f)
+        keyp = q.param_by_index(f, 0)
+        fnd = [i for i in q.field_calls(f, 'mem_cache::primary', 'find') if keyp in f.subtree_refs(i)]
+        pv_ = None
+        for (d_, v_) in [(d_, v_) for r_ in set(x for x in f.subtree_refs(f.body) if x.startswith('v:')) for (d_, v_) in f.defs_of_var(r_)]:
+            if v_ is not None and fnd and fnd[0] in set(f.walk(v_)):
+                pv_ = f.ref_of(f.N(d_)['ch'][1 if f.N(d_)['k'] == 'CXXOperatorCallExpr' else 0]) if f.N(d_)['k'] != 'DeclStmt' else [dd['ref'] for dd in f.N(d_)['decls'] if dd.get('init') is not None and fnd[0] in set(f.walk(dd['init']))][0]
+        ctx.check(pv_ is not None, R9, 'fetch[%s]:looks-up-the-key' % t, 'no primary.find(key) kept in an iterator', f.where)
+        if pv_ is None:
+            continue
+        for pi, fld, nm_ in ((1, 'container::data', 'value'), (3, 'container::timeout', 'deadline'), (4, 'container::generation', 'generation')):
+            op_ = q.param_by_index(f, pi)
+            ws = [w for w in q.writes_to(f, op_) if f.N(w)['k'] in ('BinaryOperator', 'CXXOperatorCallExpr') and f.N(w).get('op') == '=']
+            okv = len(ws) == 1 and pv_ in q.deep_refs(f, f.N(ws[0])['ch'][-1]) and any(model.strip_targs(r).endswith(fld) for r in f.subtree_refs(f.N(ws[0])['ch'][-1]))
+            if okv:
+                g_nn = f.gate_edges(lambda atom, pol, f=f, op_=op_: f.ref_of(atom) == op_ and pol is True)
+                succ_ = q.nonfalse_returns(f)
+                # a success return with a non-null out pointer has passed the assignment
+                reach = f.reachable_blocks(cut_blocks=q.blocks_of(f, ws), cut_edges=[e_ for e_ in f.gate_edges(lambda atom, pol, f=f, op_=op_: f.ref_of(atom) == op_ and pol is False)])
+                okv = bool(succ_) and all(f.point_of(r_)[0] not in reach for r_ in succ_)
+            ctx.check(okv, R9, 'fetch[%s]:%s-copied-out' % (t, nm_), 'a hit does not hand out the %s of the entry found' % nm_, f.where)
+        tp_ = q.param_by_index(f, 2)
+        lps = [L for L in q.loops(f) if any(model.strip_targs(r).endswith('container::triggers') for r in f.subtree_refs(f.N(L).get('cond', L) if f.N(L).get('cond', -1) not in (None, -1) else L))]
+        okt = len(lps) == 1 and whole_loop(f, lps[0], on_field('container::triggers'))
+        if okt:
+            insx = [i for i in f.calls(f.N(lps[0])['body']) if q.short_of(f.bcallee(i) or '') == 'insert' and f.obj(i) is not None and f.ref_of(f.obj(i)) == tp_]
+            okt = len(insx) == 1 and pv_ in q.deep_refs(f, f.N(lps[0]).get('init', lps[0]) if f.N(lps[0]).get('init', -1) not in (None, -1) else lps[0])
+        if okt:
+            g_req = f.gate_edges(lambda atom, pol, f=f, tp_=tp_: f.ref_of(atom) == tp_ and pol is True)
+            g_not = f.gate_edges(lambda atom, pol, f=f, tp_=tp_: f.ref_of(atom) == tp_ and pol is False)
+            lb = f.point_of(f.N(lps[0])['cond'])[0]
+            reach = f.reachable_blocks(cut_blocks=[lb], cut_edges=g_not)
+            okt = bool(g_req) and f.only_through(f.N(lps[0])['cond'], g_req) and all(f.point_of(r_)[0] not in reach for r_ in q.nonfalse_returns(f))
+        ctx.check(okt, R9, 'fetch[%s]:all-triggers-of-the-entry-copied-out' % t, 'the trigger names of the entry found are not all handed out', f.where)
+    for f in insts(P, 'rise'):
+        t = tag(f)
+        trp = q.param_by_index(f, 0)
+        fnd = [i for i in q.field_calls(f, 'mem_cache::triggers', 'find') if trp in f.subtree_refs(i)]
+        dn = [i for i in f.calls() if q.short_of(f.callee(i)) == 'delete_node']
+        lps = q.loops(f)
+        kl = [d['ref'] for i in f.all_nodes() if f.N(i)['k'] == 'DeclStmt' for d in f.N(i)['decls'] if (f.types[d['t']] or '').startswith(('std::list<', 'std::vector<'))]
+        okr = len(fnd) == 1 and len(dn) == 1 and len(lps) in (1, 2) and len(kl) == 1
+        kill_l = None
+        if okr:
+            kill_l = [L for L in lps if f.contains(L, dn[0])]
+            okr = len(kill_l) == 1
+        if okr:
+            kill_l = kill_l[0]
+            sec = lambda f_, j: f_.obj(j) is not None and any(model.strip_targs(r).endswith('pair::second') for r in f_.subtree_refs(f_.obj(j)))
+            copy_ls = [L for L in lps if L != kill_l]
+            if copy_ls:
+                copy_l = copy_ls[0]
+                copied = whole_loop(f, copy_l, sec) and any(q.short_of(f.bcallee(i) or '') in ('push_back', 'push_front', 'insert') and f.obj(i) is not None and f.ref_of(f.obj(i)) == kl[0] for i in f.calls(f.N(copy_l)['body'])) and \
+                    q.before(f, f.N(copy_l)['cond'], f.N(kill_l)['cond'])
+            else:
+                # range / copy construction of the private list from the whole trigger list
+                ctor = [v_ for (d_, v_) in f.defs_of_var(kl[0]) if v_ is not None]
+                copied = len(ctor) == 1 and ((any(q.short_of(f.bcallee(j) or '') == 'begin' and sec(f, j) for j in f.calls(ctor[0])) and any(q.short_of(f.bcallee(j) or '') == 'end' and sec(f, j) for j in f.calls(ctor[0]))) or
+                                             (len(f.args(f.strip(ctor[0]))) == 1 and any(model.strip_targs(r).endswith('pair::second') for r in f.subtree_refs(ctor[0]))))
+            okr = copied and whole_loop(f, kill_l, on_var(kl[0]))
+        if okr:
+            g_abs_t = q.end_compare_gate(f, 'mem_cache::triggers', True)
+            reach = f.reachable_blocks(cut_blocks=[f.point_of(f.N(kill_l)['cond'])[0]], cut_edges=g_abs_t)
+            okr = bool(g_abs_t) and f.exit not in reach
+        ctx.check(okr, R9, 'rise[%s]:every-entry-of-the-trigger-deleted' % t, 'not every entry registered under the trigger is deleted', f.where)
+    for f in insts(P, 'remove'):
+        t = tag(f)
+        keyp = q.param_by_index(f, 0)
+        fnd = [i for i in q.field_calls(f, 'mem_cache::primary', 'find') if keyp in f.subtree_refs(i)]
+        dn = [i for i in f.calls() if q.short_of(f.callee(i)) == 'delete_node']
+        g_abs = q.end_compare_gate(f, 'mem_cache::primary', True)
+        okm = len(fnd) == 1 and len(dn) == 1 and q.before(f, fnd[0], dn[0])
+        if okm:
+            reach = f.reachable_blocks(cut_blocks=q.blocks_of(f, dn), cut_edges=g_abs)
+            okm = f.exit not in reach
+        ctx.check(okm, R9, 'remove[%s]:found-entry-deleted' % t, 'remove() can return without deleting an entry that was found', f.where)
+    ctx.floor(R9, 10)
 
     # ---------------- R4
     for f in insts(P, 'fetch'):
